@@ -6,7 +6,8 @@ package main
 //   * writes: statements that write through an identifier that is (derived from) the receiver, a
 //     parameter, or a parameter of a function literal defined in the body (callbacks of Iterate*):
 //     assignments / ++ / -- whose left-hand side is an index, field or pointer expression rooted at such
-//     an identifier, `copy(dst, …)` with such a dst, and calls of the in-place helpers Reverse / Complement;
+//     an identifier, `copy(dst, …)` with such a dst, `append(dst, …)` with such a dst (it writes into the
+//     shared backing array when capacity allows), and calls of the in-place helpers Reverse / Complement;
 //   * selfCalls: names of functions / methods called on (or with an argument rooted at) such an identifier;
 //   * freshArgs: for calls `x.AddSequenceChar(name, V, …)` / `AddSequence`, whether V is a variable
 //     assigned from `make(…)`, a conversion `[]uint8(…)`, `append(newslice, …)`, or `….String()` in the
@@ -222,6 +223,11 @@ func analyseFunc(file string, fd *ast.FuncDecl) fnFact {
 								break
 							}
 						}
+					}
+					// append(x, …) with x (a slice of) the input writes into the input's backing array whenever
+					// cap(x) > len(x) — always the case for the `x[:0]` / `x[a:a]` filtering idiom
+					if f.Name == "append" && len(x.Args) > 1 && derived(x.Args[0]) {
+						ff.writes = append(ff.writes, kindOf(x.Args[0])+"|append@"+pos(x))
 					}
 					if f.Name == "delete" && len(x.Args) > 0 && derived(x.Args[0]) {
 						ff.writes = append(ff.writes, kindOf(x.Args[0])+"|delete@"+pos(x))
